@@ -226,7 +226,8 @@ def _gen_valid(rng, tier, n_graphs, nmax_eval):
         V = G.all_nodes(g)
         di = [tuple(e) for e in g["di"]]
         bi = [tuple(e) for e in g["bi"]]
-        evaluate = len(V) <= nmax_eval
+        # exact evaluation sums over every latent assignment (one latent per bidirected edge): bound the work
+        evaluate = len(V) <= nmax_eval and (2 ** len(bi)) * (2.5 ** len(V)) <= 2e5
         base = {"g": g, "scm_seed": rng.randrange(1 << 30), "evaluate": evaluate, "q_by_construction": True}
         dists = S.districts_of(bi, V)
         for T in dists:
@@ -350,11 +351,12 @@ def _corpus():
 def cases(rng: random.Random, tier: str):
     out = _corpus()
     if tier == "quick":
-        out += _gen_valid(rng, tier, 90, 5)
-        out += _gen_malformed(rng, 250)
+        out += _gen_valid(rng, tier, 220, 5)
+        out += _gen_malformed(rng, 500)
     else:
-        out += _gen_valid(rng, tier, 420, 6)
-        out += _gen_malformed(rng, 1500)
+        out += _gen_valid(rng, tier, 1000, 5)
+        out += _gen_valid(rng, tier, 300, 6)
+        out += _gen_malformed(rng, 3000)
     return out
 
 
